@@ -140,7 +140,14 @@ func runC15(r *an.Run) {
 			}
 			for _, s := range f.Calls(an.CalleeIs(iv+"invoiceUpdateCtx.settleRes"), false) {
 				mppCommon(s)
-				guarded(o, f, s, an.Truth(an.LocalNamed("setComplete"), true, "setComplete"))
+				// the set is complete: either through the temporary that names
+				// the comparison (its definition is pinned below) or, where the
+				// comparison is tested in place, through the comparison itself
+				if len(c15ObjsNamed(f, "setComplete")) > 0 {
+					guarded(o, f, s, an.Truth(an.LocalNamed("setComplete"), true, "setComplete"))
+				} else {
+					guarded(o, f, s, an.CmpX(an.LocalNamed("newSetTotal"), an.GE, total, "newSetTotal >= totalAmt"))
+				}
 				guarded(o, f, s, an.Truth(an.FieldPath(inv, "HodlInvoice"), false, "!inv.HodlInvoice"))
 			}
 			accs := f.Calls(an.CalleeIs(iv+"invoiceUpdateCtx.acceptRes"), false)
@@ -169,7 +176,12 @@ func runC15(r *an.Run) {
 			}
 			// setComplete is `set sum >= declared total`
 			scs := f.Assigns(an.LocalNamed("setComplete"), false)
-			if need(o, f, "setComplete definition", scs, 1) {
+			hasSetComplete := len(c15ObjsNamed(f, "setComplete")) > 0
+			if !hasSetComplete {
+				// no temporary: the settle site was required above to lie
+				// below newSetTotal >= totalAmt itself
+				o.Site("%s tests newSetTotal >= totalAmt in place (no setComplete temporary)", f.ID)
+			} else if need(o, f, "setComplete definition", scs, 1) {
 				be, ok := scs[0].Node.(*ast.AssignStmt).Rhs[0].(*ast.BinaryExpr)
 				if !ok || be.Op.String() != ">=" || !an.Match(f, an.LocalNamed("newSetTotal"), be.X) || !an.Match(f, total, be.Y) {
 					o.FailAt(f.ID+"#set-complete", scs[0].Where(), "the set is declared complete by %s, expected newSetTotal >= totalAmt (the total every HTLC of the set declared)", an.Text(scs[0].Node))
@@ -226,7 +238,13 @@ func runC15(r *an.Run) {
 
 			// the locals the conditions are stated on keep the value that was
 			// checked, and are defined from the payload as documented
-			c15StableOnceRead(o, f, "totalAmt", "paymentAddr", "newSetTotal", "setComplete", "htlcSet", "setID")
+			stable := []string{"totalAmt", "paymentAddr", "newSetTotal", "htlcSet", "setID"}
+			if hasSetComplete {
+				stable = append(stable, "setComplete")
+			} else {
+				o.Site("%s: the completeness comparison is not held in a local", f.ID)
+			}
+			c15StableOnceRead(o, f, stable...)
 			for _, w := range c15PinnedWrites(o, f, "totalAmt", `^var \$p0\.totalAmtMsat$`, `^= \$p0\.mpp\.TotalMsat\(\)$`) {
 				if w.tok == token.ASSIGN {
 					guarded(o, f, w.site, an.IsNil(an.FieldPath(ctxT, "mpp"), false, "ctx.mpp != nil"))
